@@ -789,3 +789,9 @@ Proof. exists [(bs "k", bs "a=b")]. split; [repeat constructor; intros []|]. vm_
 Lemma ctx_map_refuted_amp : exists m, NoDup (map fst m) /\
   ctx_get (bs "x") (decode_ctx (encode_ctx m)) <> assoc (bs "x") m.
 Proof. exists [(bs "k", bs "a&x=1")]. split; [repeat constructor; intros []|]. vm_compute. discriminate. Qed.
+
+(* ================================================================ the reader's configuration is irrelevant *)
+Lemma undo_read_config_independent T parse_time decompress json_parse pb_parse (r1 r2 : cfg) ctx info :
+  undo_read T parse_time decompress json_parse pb_parse r1 ctx info
+  = undo_read T parse_time decompress json_parse pb_parse r2 ctx info.
+Proof. reflexivity. Qed.
